@@ -18,7 +18,7 @@ OPS_NEED_COPY = {'push_back_c', 'insert_c', 'insert_n', 'insert_range', 'insert_
                  'assign_il', 'assign_op_il', 'append_range', 'append_il', 'emplace'}
 OPS_ALIAS = ['push_back_c', 'emplace_back', 'insert_c', 'insert_n', 'emplace', 'resize_v']
 
-def ops_job(op, elem, n, cap, fmask=0, alias=0, afl=0, maxcnt=2, size=None, std='c++17', extra_defs=None, witness=None, tag='', maxsz=None, sizet=None, extra_clang=()):
+def ops_job(op, elem, n, cap, fmask=0, alias=0, afl=0, maxcnt=2, size=None, std='c++17', extra_defs=None, witness=None, tag='', maxsz=None, sizet=None, extra_clang=(), ce=False):
     maxcap = max(2 * cap, cap + maxcnt + 2, 2)
     maxm = cap + maxcnt + 2
     defs = {'VF_ELEM': elem, 'VF_N': n, 'VF_CAP': cap, 'VF_OP': 'OP_' + op, 'VF_FMASK': fmask, 'VF_ALIAS': alias,
@@ -29,6 +29,12 @@ def ops_job(op, elem, n, cap, fmask=0, alias=0, afl=0, maxcnt=2, size=None, std=
     if op.endswith('_il') and elem != 'int' and fmask and not (extra_defs and 'VF_B' in extra_defs):
         defs['VF_B'] = 2; tag += '-b2'   # initializer-list ops instantiate one call site per length: pin the length when faults are on
     if extra_defs: defs.update(extra_defs)
+    minalloc = n + 1; maxalloc = maxcap; allocmask = None
+    if ce:
+        # forced constant evaluation: every buffer (also the N-element 'inline' one and heap_temporary's sizeof(T)-element block) comes from the allocator
+        defs['VF_FORCE_CONSTANT_EVALUATED'] = 1; std = 'c++20' if std == 'c++17' else std; tag += '-ce'; minalloc = 0
+        esz = {'int': 4, 'unsigned char': 1}.get(elem, 16)
+        maxalloc = max(maxcap, esz); allocmask = ((1 << (maxcap + 1)) - 1) | (1 << esz)
     name = 'ops-%s-%s-N%d-c%d%s%s%s%s%s' % (op, elem.replace(' ', ''), n, cap, '-f%d' % fmask if fmask else '', '-alias' if alias else '',
                                           '-a%d' % afl if afl else '', '-s%d' % size if size is not None else '', tag)
     if std != 'c++17': name += '-' + std.replace('+', 'p')
@@ -36,8 +42,8 @@ def ops_job(op, elem, n, cap, fmask=0, alias=0, afl=0, maxcnt=2, size=None, std=
     w = ['normal return'] if witness is None else witness
     if op == 'shrink' and cap == n: w = [x for x in w if 'exceptional' not in x]   # inline: nothing can throw
     if op == 'at': w = ['out_of_range exit'] + (['normal return'] if (cap > 0 and size != 0) else [])
-    return Job(name, 'ops', defs, elems=[ELEM_IR[elem]], std=std, unwind=max(maxcap, maxm, 6) + 2, maxalloc=maxcap,
-               minalloc=n + 1, expect_witness=w, extra_clang=list(extra_clang),
+    return Job(name, 'ops', defs, elems=[ELEM_IR[elem]], std=std, unwind=max(maxcap, maxm, 6) + 2, maxalloc=maxalloc,
+               minalloc=minalloc, expect_witness=w, allocmask=allocmask, extra_clang=list(extra_clang),
                desc='%s on small_vector<%s,%d> from any state with capacity %d%s%s' % (op, elem, n, cap, ' (inline)' if cap == n else ' (heap)',
                     ', faults kinds=%d' % fmask if fmask else ''))
 
